@@ -202,7 +202,47 @@ func isFieldOfObj(f *ir.Func, e ast.Expr, obj types.Object, field string) bool {
 	if !ok || sel.Sel.Name != field {
 		return false
 	}
-	return f.ObjOf(sel.X) == obj && obj != nil
+	return obj != nil && denotes(f, f.ObjOf(sel.X), obj)
+}
+
+// denotes: x is obj, or a local variable that only ever holds a copy of obj
+// (every definition of x is a bare declaration, an empty literal of its type —
+// the value a helper returns on its failure paths — or a plain copy of obj or
+// of another such variable).
+func denotes(f *ir.Func, x, obj types.Object) bool {
+	for depth := 0; depth < 4 && x != nil; depth++ {
+		if x == obj {
+			return true
+		}
+		var src types.Object
+		n := 0
+		for _, d := range wholeDefs(f, x) {
+			if d.RHS == nil {
+				if vs, ok := d.Stmt.(*ast.ValueSpec); ok && len(vs.Values) == 0 {
+					continue
+				}
+				return false
+			}
+			if cl, ok := ast.Unparen(d.RHS).(*ast.CompositeLit); ok && len(cl.Elts) == 0 {
+				continue
+			}
+			id, ok := ast.Unparen(d.RHS).(*ast.Ident)
+			if !ok {
+				return false
+			}
+			o := f.ObjOf(id)
+			if o == nil || (src != nil && src != o) {
+				return false
+			}
+			src = o
+			n++
+		}
+		if n == 0 {
+			return false
+		}
+		x = src
+	}
+	return false
 }
 
 // trueEdgesOfCall returns the edges on which a bool-valued call tested in a
